@@ -479,3 +479,17 @@ package git
 //gvc:  sink rmFileAndDirsIfEmpty#2 requires name: same_string(arg1, e.Name)
 //gvc:  sink Lstat requires name: same_string(arg0, e.Name)
 //gvc:end
+
+// Reset (C29: a refused operation changes nothing): what Reset can refuse by
+// looking at its arguments and at the target tree is refused before HEAD (and
+// with it the current branch) moves -- when setHEADCommit is called for a
+// sparse reset, the directories have been looked for in the target tree.
+//gvc:func (*Worktree).Reset
+//gvc:  props C29
+//gvc:  theory int
+//gvc:  opt coarse
+//gvc:  opt frame args
+//gvc:  opt callees abstract
+//gvc:  requires nn: opts != nil
+//gvc:  sink setHEADCommit requires validated: opts.Mode == 3 || len(opts.SparseDirs) == 0 || opts.SkipSparseDirValidation || calls("treeContainsDirs") == 1
+//gvc:end
